@@ -19,7 +19,12 @@
 (*   kill   k = -1: not killed; else the process was os._exit()ed           *)
 (*          immediately before filesystem operation k (counted from the     *)
 (*          command's first one) of L; delivered = how many message files   *)
-(*          the command had linked into new/ or cur/ by then                *)
+(*          the command had linked into new/ or cur/ by then.               *)
+(*          kind = "fail": no kill - filesystem operation k was NOT         *)
+(*          performed and raised OSError(errno) instead (a failing system   *)
+(*          call: ENOSPC, EIO, EXDEV), the command went on to whatever end  *)
+(*          it took, and the process was then stopped as in k = -1;         *)
+(*          delivered counts all message files the command linked           *)
 (*   post   every mailbox as served by a NEW backend instance on the same   *)
 (*          directory (stale lock files aged past their expiry first)       *)
 (*                                                                          *)
@@ -49,7 +54,19 @@
 (*                      linked d >= 1 of its message files, no tagged       *)
 (*                      response was produced, and the messages present     *)
 (*                      are EXACTLY the first d literals of the command     *)
-(*                      (BaseSession.append_messages delivers one by one)   *)
+(*                      (BaseSession.append_messages delivers one by one);  *)
+(*                      with a failing system call: the command ended       *)
+(*                      without OK (BYE / NO) and the messages present are  *)
+(*                      exactly the first d literals                        *)
+(*  MaildirTimeoutAfterEffect  the failing call was the removal of a        *)
+(*                      dovecot-uidlist.lock, so the lock file stayed; a    *)
+(*                      LATER lock acquisition of the same command timed    *)
+(*                      out on it and the command answered NO [TIMEOUT]     *)
+(*                      although messages had already been copied / moved / *)
+(*                      delivered.  Excuses C14_RefusedInert only (and the  *)
+(*                      NO of a half-applied multi-APPEND); no message may  *)
+(*                      be lost and nothing but the command's own effect    *)
+(*                      may show.                                           *)
 (***************************************************************************)
 EXTENDS Naturals, Sequences, FiniteSets, TLC, Json, IOUtils
 
@@ -68,6 +85,7 @@ vars == <<tid, l, pre, cmd, ack, kill, used, bad>>
 ToSet(q) == {q[i] : i \in DOMAIN q}
 Deleted == "\\Deleted"
 ONEBYONE == "MultiAppendOneByOne"
+TIMEOUTAFTER == "MaildirTimeoutAfterEffect"
 
 Init == /\ tid \in 1..N /\ l = 1
         /\ pre = <<>> /\ cmd = <<>> /\ ack = <<>> /\ kill = <<>>
@@ -114,7 +132,8 @@ Judge(post) ==
       mine == ToSet(C.cids)
       present == mine \cap Anywhere(post)
       firstD == {C.cids[i] : i \in {j \in DOMAIN C.cids : j <= K.delivered}}
-      oneByOne == /\ K.k >= 0 /\ K.delivered >= 1 /\ A.cond = "NONE"
+      oneByOne == /\ K.k >= 0 /\ K.delivered >= 1
+                  /\ (A.cond = "NONE" \/ (K.kind = "fail" /\ A.cond # "OK"))
                   /\ present = firstD
       halfApplied == multi /\ A.cond # "OK" /\ present # {}
       notAll == multi /\ A.cond = "OK" /\ ~(mine \subseteq Cids(post, C.dst))
@@ -122,12 +141,24 @@ Judge(post) ==
       changed == A.cond \in {"NO", "BAD"} /\
                  (\/ Names(P) # Names(post)
                   \/ \E f \in Names(P) : Rows(P, f) # Rows(post, f))
+      \* the lock file left behind by the failing call, the command's later step timed out
+      timeoutAfter == /\ K.kind = "fail" /\ K.k >= 0 /\ K.before = "unlink(uidlist.lock)"
+                      /\ A.cond = "NO" /\ A.code = "TIMEOUT"
+                      /\ C.op \in {"move", "copy", "append"}
+                      \* nothing but the command's own effect: no mailbox appears or vanishes,
+                      \* mailboxes other than source and destination are as before, and what
+                      \* the destination gained are messages the command named
+                      /\ Names(P) = Names(post)
+                      /\ \A f \in Names(P) \ {C.src, C.dst} : Rows(P, f) = Rows(post, f)
+                      /\ Cids(post, C.dst) \ Cids(P, C.dst) \subseteq ToSet(C.cids)
+      tolerated == (IF halfApplied THEN {ONEBYONE} ELSE {})
+                   \cup (IF changed /\ timeoutAfter THEN {TIMEOUTAFTER} ELSE {})
   IN IF limbo THEN Fail("C14_NeverInLimbo")
      ELSE IF notExactlyOne THEN Fail("C14_MoveExactlyOne")
      ELSE IF notAll THEN Fail("C14_AllOrNothing")
      ELSE IF halfApplied /\ ~(oneByOne /\ ONEBYONE \in Known) THEN Fail("C14_AllOrNothing")
-     ELSE IF changed THEN Fail("C14_RefusedInert")
-     ELSE /\ used' = IF halfApplied THEN used \cup {ONEBYONE} ELSE used
+     ELSE IF changed /\ ~(timeoutAfter /\ TIMEOUTAFTER \in Known) THEN Fail("C14_RefusedInert")
+     ELSE /\ used' = used \cup tolerated
           /\ UNCHANGED <<pre, cmd, ack, kill, bad>>
 
 Next == /\ l <= Len(Traces[tid]) /\ bad = ""
